@@ -55,7 +55,9 @@ pub fn from_data(d: &ArrayData) -> Option<Node> {
 pub fn dump(a: &dyn Array) -> Option<Args> {
     let d = a.to_data();
     let node = from_data(&d)?;
-    let mut out: Args = vec![g(d.validate_full().is_ok() as u8)];
+    let vf = d.validate_full();
+    if let (Err(e), true) = (&vf, std::env::var("VERIF_PANIC_MSG").is_ok()) { eprintln!("validate_full of a returned array: {e}"); }
+    let mut out: Args = vec![g(vf.is_ok() as u8)];
     c09::encode(&node, &mut out);
     Some(out)
 }
@@ -75,16 +77,24 @@ pub fn run(op: &str, a: &Args) -> Option<Args> {
     let k = to_usize(&a[0]);
     let params = to_i64s(&a[1]);
     let nin = to_usize(&a[2]);
-    let Some(ins) = decode_inputs(a, 3, nin) else { return Some(skip()) };
+    // building the typed input arrays may itself panic for nested Struct layouts that carry offsets (known
+    // finding F3: ArrayData::slice and StructArray::from apply the offset twice): no call, nothing to check
+    let ins = match std::panic::catch_unwind(std::panic::AssertUnwindSafe(|| decode_inputs(a, 3, nin))) { Ok(Some(v)) => v, _ => return Some(skip()) };
+    // C01 constrains what a safe operation RETURNS; a (safe) panic returns nothing: skipped, not a violation
+    let out = std::panic::catch_unwind(std::panic::AssertUnwindSafe(|| run_kernel(k, &params, &ins)));
+    match out { Ok(Some(Ok(o))) => Some(dump(o.as_ref()).unwrap_or_else(skip)), _ => Some(skip()) }
+}
+
+fn run_kernel(k: usize, params: &[i64], ins: &[ArrayRef]) -> Option<Result<ArrayRef, arrow_schema::ArrowError>> {
     let x = &ins[0];
     let out: Result<ArrayRef, arrow_schema::ArrowError> = match k {
         0 => { let o = (params[0] as usize).min(x.len()); let l = (params[1] as usize).min(x.len() - o); Ok(x.slice(o, l)) }
-        1 => arrow_select::take::take(x.as_ref(), &to_idx_array(&params), None),
-        2 => arrow_select::filter::filter(x.as_ref(), &to_bool_array(&params)),
+        1 => arrow_select::take::take(x.as_ref(), &to_idx_array(params), None),
+        2 => arrow_select::filter::filter(x.as_ref(), &to_bool_array(params)),
         3 => arrow_select::concat::concat(&ins.iter().map(|y| y.as_ref()).collect::<Vec<_>>()),
         4 => { let idx: Vec<(usize, usize)> = params.chunks(2).map(|c| (c[0] as usize, c[1] as usize)).collect();
                arrow_select::interleave::interleave(&ins.iter().map(|y| y.as_ref()).collect::<Vec<_>>(), &idx) }
-        5 => arrow_select::nullif::nullif(x.as_ref(), &to_bool_array(&params)),
+        5 => arrow_select::nullif::nullif(x.as_ref(), &to_bool_array(params)),
         6 => arrow_select::window::shift(x.as_ref(), params[0]),
         7 => arrow_ord::sort::sort(x.as_ref(), Some(SortOptions { descending: params[0] != 0, nulls_first: params[1] != 0 })),
         8 => arrow_ord::sort::sort_limit(x.as_ref(), None, Some(params[0] as usize)),
@@ -96,14 +106,14 @@ pub fn run(op: &str, a: &Args) -> Option<Args> {
         }
         10 => { let to = match params[0] { 0 => DataType::Utf8, 1 => DataType::LargeUtf8, 2 => DataType::Utf8View, 3 => DataType::Int64, 4 => DataType::Binary,
                     5 => DataType::Dictionary(Box::new(DataType::Int32), Box::new(x.data_type().clone())), 6 => DataType::BinaryView, _ => DataType::Float64 };
-                if arrow_cast::can_cast_types(x.data_type(), &to) { arrow_cast::cast(x.as_ref(), &to) } else { return Some(skip()) } }
+                if arrow_cast::can_cast_types(x.data_type(), &to) { arrow_cast::cast(x.as_ref(), &to) } else { return None } }
         11 => { // row format round trip
             let conv = arrow_row::RowConverter::new(vec![arrow_row::SortField::new(x.data_type().clone())]);
-            match conv { Ok(c) => c.convert_columns(&[x.clone()]).and_then(|rows| c.convert_rows(rows.iter())).map(|mut v| v.remove(0)), Err(_) => return Some(skip()) } }
-        12 => arrow_select::zip::zip(&to_bool_array(&params), &ins[0], &ins[1]),
+            match conv { Ok(c) => c.convert_columns(&[x.clone()]).and_then(|rows| c.convert_rows(rows.iter())).map(|mut v| v.remove(0)), Err(_) => return None } }
+        12 => arrow_select::zip::zip(&to_bool_array(params), &ins[0], &ins[1]),
         _ => return None,
     };
-    match out { Ok(o) => Some(dump(o.as_ref()).unwrap_or_else(skip)), Err(_) => Some(skip()) }
+    Some(out)
 }
 
 pub fn generate(tier: &str, r: &mut Rng, emit: &mut dyn FnMut(Case)) {
@@ -129,7 +139,7 @@ pub fn generate(tier: &str, r: &mut Rng, emit: &mut dyn FnMut(Case)) {
         };
         let mut args: Args = vec![g(k), gs(&params), g(nin)];
         for nd in &nodes { c09::encode(nd, &mut args) }
-        let mut tenc = Vec::new(); enc_head(&ty, &mut tenc);
+        let mut tenc = String::new(); enc_head(&ty, &mut tenc);
         emit(Case::new("c01.kernel", args, &["c01.valid.post1"], format!("k{k} t{}", tenc)));
     }
 }
